@@ -31,8 +31,13 @@ func verifHarness_C18_shortcuts() {
 	api := verifChoice("api", 9) // Bind, AutoBind, ShouldBind(JSON), ShouldBind(XML), MustBind(JSON), BindJSON, BindXML, BindForm, Validate
 	ctKind := verifChoice("contentType", 4)
 	ct := []string{"application/json", "text/xml; charset=utf-8", "application/x-www-form-urlencoded", "text/plain"}[ctKind]
+	if api == 7 {
+		// BindForm reads what net/http's ParseForm produces, which takes a body only with this type
+		verifAssume(ctKind == 2)
+	}
 	validator := verifChoice("validator", 2) == 1
-	decodeFails := verifChoice("decodeFails", 2) == 1
+	decodeKind := verifChoice("decodeFails", 3) // 0 decodes, 1 malformed body, 2 empty body (io.EOF) while the URL has a query string
+	decodeFails := decodeKind != 0
 	validateFails := verifChoice("validateFails", 2) == 1
 	if validator {
 		binding.ResetValidator()
@@ -75,13 +80,26 @@ func verifHarness_C18_shortcuts() {
 	case "form":
 		body = "name=" + name
 	}
+	if !decodeFails {
+		decodeKind = 0
+	}
 	for _, k := range []string{"json.Decode", "xml.Decode", "formam.Decode"} {
-		verifSetGhost("err."+k, decodeFails)
+		if decodeKind == 2 {
+			verifSetGhost("err."+k, "EOF")
+		} else {
+			verifSetGhost("err."+k, decodeFails)
+		}
+	}
+	if decodeKind == 2 {
+		body = ""
 	}
 	verifSetGhost("err.ParseForm", false)
 	verifSetGhost("err.Validate", validateFails)
 
 	req := &http.Request{Method: "POST", URL: &url.URL{Path: "/b"}, Header: http.Header{"Content-Type": {ct}}}
+	if decodeKind == 2 {
+		req.URL.RawQuery = "name=fromquery"
+	}
 	req.Body = &verifC18Body{strings.NewReader(body)}
 	if verifSymbolic() {
 		req.PostForm = url.Values{"name": {name}}
@@ -138,6 +156,9 @@ func verifHarness_C18_shortcuts() {
 		if !shouldFail && api != 8 {
 			verifAssert(obj.Name == name, "the value is bound from the request body in the named format")
 		}
+		if shouldFail && decodeFails {
+			verifAssert(obj.Name == "", "a body that does not decode binds nothing (the query string is not a fallback)")
+		}
 		verifCover("C18 shortcut")
 		return
 	}
@@ -145,6 +166,7 @@ func verifHarness_C18_shortcuts() {
 	nVal := verifCountEvents("Validate")
 	want := map[string][4]int{"json": {1, 0, 0, 0}, "xml": {0, 1, 0, 0}, "form": {0, 0, 1, 1}, "": {0, 0, 0, 0}}[format]
 	verifAssert(nJSON == want[0] && nXML == want[1] && nForm == want[2] && nParse == want[3], "exactly the decoder of the named (or selected) format reads the request")
+	verifAssert(verifCountEvents("URL.Query") == 0, "the query string is not a source of a request with a body")
 	reached := !decodeFails && (format != "" || api == 8)
 	if validator && reached {
 		verifAssert(nVal == 1 && verifEventKind(verifEventCount()-1) == "Validate", "validation runs once, after decoding")
